@@ -44,7 +44,8 @@ var c03Enum = func() [][]int {
 		for fam := 0; fam < 4; fam += 3 {
 			for content := 0; content < 6; content++ {
 				for l := range c03Lens {
-					p := []int{1, reg}
+					// workers, station key (any value), registry kind, (clients), family, content kind, length
+					p := []int{1, 4242, reg}
 					if reg > 0 {
 						p = append(p, 2)
 					}
@@ -75,6 +76,12 @@ func TestVerifC03(t *testing.T) {
 		// remaining choices (cuts, pacing, prober behaviour, clients, schedule) are drawn from the seed
 		EnumN:   func(string) int { return len(c03Enum) },
 		EnumAt:  func(_ string, i int) []int { return c03Enum[i] },
+		EnumLabels: func(_ string, i int) []string {
+			if len(c03Enum[i]) == 7 {
+				return []string{"workers", "station-key", "registry", "nclients", "family", "content", "len"}
+			}
+			return []string{"workers", "station-key", "registry", "family", "content", "len"}
+		},
 		Runs:    map[string]int{"quick": 25000, "thorough": 800000},
 		LeakSig: "",
 		Real:    []string{"cmd/application connManager.handleNewTCPConn (read loop, classification deadline, discard paths)", "min / prefix (all default prefixes) / obfs4 station transports", "RegistrationManager + ingest pipeline (registrations are ingested through HandleRegUpdates)", "client transports producing the genuine flights that are then corrupted"},
